@@ -93,7 +93,8 @@ LINE_PATTERNS = [
     (r"^\{cxx_var\} = \{cast_static\}(\{cxx_type\} \*|char \*\*)\{cast1\}\{value_var\}\.data\{cast2\};$", []),
     (r"^\{size_var\} = \{value_var\}\.size;$", []),
     (r"^\{cxx_var\} = \{nullptr\};$", []),
-    (r"^\{py_var\}->\{PY_type_obj\} = \{cxx_addr\}\{cxx_var\};$", []),
+    (r"^\{py_var\}->\{PY_type_obj\} = (\{cxx_addr\}\{cxx_var\}|\{cxx_nonconst_ptr\});$", []),
+    (r"^\{py_var\}->\{PY_type_dtor\} = 0;$", []),
     (r"^PyCapsule_SetContext\(\{py_capsule\},\t \{PY_fetch_context_function\}\(\{capsule_order\}\)\);$", []),
     (r"^\{npy_dims_var\}\[0\] = \{cxx_var\}->size\(\);$", []),
     (r"^\{data_var\} = static_cast<\{cxx_T\} \*>\(PyArray_DATA\(\{py_var\}\)\);$", []),
@@ -112,7 +113,7 @@ CAPI_ARITY = {"PyInt_FromLong": 1, "PyInt_FromSize_t": 1, "PyFloat_FromDouble": 
               "PyString_FromString": 1, "PyString_FromStringAndSize": 2, "PyCapsule_New": 3, "PyBool_FromLong": 1}
 
 # value classes: 0 int, 1 str, 2 float, 3 bool, 4 None, 5 complex, 10.. instances of wrapped classes
-ANY = [0, 1, 2, 3, 4, 5] + list(range(10, 18))
+ANY = list(range(0, 18))
 UNIT_CLASS = {}
 for _u in "bBhHiIlkLKn":
     UNIT_CLASS[_u] = [0, 3]
